@@ -1,4 +1,5 @@
 import Theorems.C11
+import Proofs.TraceTerm
 /-!
 # C09 — fast-check output is closed under reference
 
@@ -91,5 +92,30 @@ theorem local_served (h : trace w entries fuel = some s) (m l : Nat) (hq : Task.
   have h4 := C11.done_of_sched w entries fuel s h _ h3
   rw [hn] at h4 ⊢
   exact C11.decl_retained w entries fuel s h m l d h4 hd
+
+/-- **the tracer terminates** on every package from every set of entry points: the theorems above
+are not vacuous for any input — there always is an amount of fuel with which the run finishes,
+and more fuel gives the same result -/
+theorem tracer_terminates : ∃ fuel r, trace w entries fuel = some r :=
+  trace_terminates w entries
+
+theorem more_fuel_same_result (r : State) (h : trace w entries fuel = some r) :
+    trace w entries (fuel + 1) = some r :=
+  run_fuel_mono w fuel _ r h
+
+/-- closure, unconditionally: for every package there is a finished run, and in it every local
+reference of every retained declaration is retained -/
+theorem closed_local_total : ∃ fuel r, trace w entries fuel = some r ∧
+    ∀ m name x d d', (m, name) ∈ r.decls → findDecl (w.mod m) name = some d → x ∈ d.refs →
+      findDecl (w.mod m) x = some d' → (m, d'.name) ∈ r.decls := by
+  obtain ⟨fuel, r, h⟩ := trace_terminates w entries
+  exact ⟨fuel, r, h, fun m name x d d' hr hd hx hd' => (closed_local w entries fuel r h m name x d d' hr hd hx hd').1⟩
+
+/-- exactness, unconditionally (C11): for every package there is a finished run whose retained
+declarations are exactly those the public API calls for -/
+theorem retained_iff_total : ∃ fuel r, trace w entries fuel = some r ∧
+    ∀ m name, (m, name) ∈ r.decls ↔ (Just w entries (.decl m name) ∧ (findDecl (w.mod m) name).isSome = true) := by
+  obtain ⟨fuel, r, h⟩ := trace_terminates w entries
+  exact ⟨fuel, r, h, fun m name => C11.retained_iff w entries fuel r h m name⟩
 
 end DG.C09
